@@ -303,6 +303,23 @@ func c08Codec() *explore.Scenario {
 					r.Violate(sig("unstable"), "%s: two fresh instances encode differently", v.Name)
 				}
 			}
+			// Read as the first call on a fresh instance (io.ReadAll, or a caller that grows its buffer on
+			// ErrShortBuffer, never asks for Len() first): same bytes, and Len() afterwards agrees
+			{
+				e5 := v.Mk()
+				big5 := make([]byte, n+64)
+				m5, err5 := e5.Read(big5)
+				n5 := e5.Len()
+				if m5 != n5 || (err5 != io.EOF && err5 != nil) {
+					r.Violate(sig("read-before-len"), "%s: Read as the first call = (%d, %v), Len() afterwards = %d", v.Name, m5, err5, n5)
+				} else if v.RoundTyp != "ech" && !bytes.Equal(big5[:m5], buf) {
+					r.Violate(sig("read-before-len-differs"), "%s: Read as the first call encodes differently from Len() then Read", v.Name)
+				}
+				e6 := v.Mk()
+				if m6, err6 := e6.Read(make([]byte, 3)); n >= 4 && (err6 != io.ErrShortBuffer || m6 != 0) {
+					r.Violate(sig("short-buffer-before-len"), "%s: Read(3-byte buffer) as the first call = (%d, %v), want (0, io.ErrShortBuffer)", v.Name, m6, err6)
+				}
+			}
 			// every shorter buffer
 			shortOK := 0
 			for k := 0; k < n; k++ {
